@@ -158,4 +158,17 @@ PROPS = {
                                   "rounding distance of the computed point is measured against the exact point with tolerance 1e-9*scale (not proved)"],
         assumptions=["segments of non-zero length; no NaN"],
     ),
+    "C15": dict(
+        modules=["GeomVerif.Properties.C15"],
+        n_quick=30000, n_thorough=400000, thorough_seeds=4, min_theorems=4,
+        rule="points and segments on integer grids 3/5/12/1000/2^20 in 2D and 3D: random, parallel, collinear, touching at an endpoint, zero-length "
+             "first or second segment, segment parallel to the last axis; ops DistanceFromPointToLine, PerpendicularDistanceFromPointToLine (distinct "
+             "points), DistanceFromPointToLineString (stride 2..4, 1..6 vertices, arbitrary extra ordinates), DistanceFromLineToLine, "
+             "xyz.DistancePointToLine, xyz.DistanceLineToLine; plus the repaired D8/D9 inputs. Go's float64 result is compared bit for bit with the "
+             "Lean Float mirror and with the exact rational squared distance within 1e-9 x coordinate scale. non-trivial = all",
+        nontrivial=lambda op, inp: True,
+        trusted_base=TB_COMMON + ["modelled: xy.DistanceFromPointToLine/LineString/LineToLine/Perpendicular, xyz.Distance/DistancePointToLine/DistanceLineToLine (bit-exact Float mirror)",
+                                  "segment-segment minimality is decided by the exact oracle (critical point of the quadratic + four endpoint distances), not by a theorem"],
+        assumptions=["finite ordinates on integer grids up to 2^20; perpendicular distance only for lines through two distinct points"],
+    ),
 }
